@@ -1,6 +1,6 @@
 // ===== actix-tls acceptor FACTORY environment (TRUSTED BASE): configuration reaches the service (C18) =====
 pub mod std { pub mod time { pub use crate::Duration; } }
-//@extract_const file=actix-tls/src/accept/mod.rs name=DEFAULT_TLS_HANDSHAKE_TIMEOUT ensures="DEFAULT_TLS_HANDSHAKE_TIMEOUT.ns() == 3 * 1_000_000_000"
+//@extract_const file=actix-tls/src/accept/mod.rs name=DEFAULT_TLS_HANDSHAKE_TIMEOUT dur_spec=default_hs_timeout_ns
 impl Clone for Counter { #[verifier::external_body] fn clone(&self) -> (r: Counter) ensures r.id() == self.id() { unimplemented!() } }
 /// accept/mod.rs `thread_local! { static MAX_CONN_COUNTER: Counter = .. }`: this thread's counter (rule R23)
 pub struct MaxConnCounterKey { }
